@@ -40,6 +40,8 @@ struct Op {
     int fail_mode = 0;            // 0 once, 1 from k on, 2 set
     unsigned long long fail_set = 0;
     int lose = 0;                 // after this op: source_loss for object `a` (1) - C12
+    int brk = 0;                  // for this one call the manager it is given has these function pointers cleared IN PLACE (bit 0 malloc .. 4 free): the
+                                  // same table object that was accepted before must now be rejected - C13
     int keep = 0;                 // in-place op: if an injected failure makes it fail, the caller keeps using the object (no cleanup) - C11 pool
     int task = 0;                 // C20: task that runs this op (0 = main/setup phase)
     // query list model for OP_MKLIST: keys/values; value "\x01NULL" marker handled via has_value
@@ -58,6 +60,7 @@ struct Plan {
     std::vector<int> mgrs;         // manager kinds, index 0.. ; ops refer by index
     std::vector<int> mgr_mask;     // for MK_INCOMPLETE: bitmask of present function pointers
     int reuse = 0; unsigned long long junk = 0; int redzone = 32;
+    int locale = 0;                // process locale while the run executes: 0 "C", 1 "C.UTF-8" (LC_ALL) - what a deployment's setlocale() does to <ctype.h>/<wctype.h>
     std::vector<Op> ops;
     // C20 schedule
     int sched_policy = 0;          // 0 none(sequential), 1 rr-at-alloc, 2 pct, 3 random walk
